@@ -1,6 +1,7 @@
 """C06 - n-gram, skip-gram and edge-list matrices hold exact counts; '+' merges models."""
 from __future__ import annotations
 
+import collections
 import itertools
 
 import numpy as np
@@ -159,23 +160,32 @@ def run_skipgram(case):
     toks = [t for d in docs for t in d]
     if not toks:
         return res(rej=True, out="no-tokens")
-    win = dict(radius=radius, kernel=kernel, kargs={}, mix=1.0, wfun="fixed", wargs={}, before=False, prefix="")
+    wfun, kw = case.get("wfun", "fixed"), dict(case.get("kw", {}))
+    win = dict(radius=radius, kernel=kernel, kargs={}, mix=1.0, wfun=wfun, wargs={}, before=False, prefix="")
+    counts = collections.Counter(toks)
+    vocab = {t for t in counts if counts[t] >= kw.get("min_occurrences", 0)}
+    if not vocab:
+        return res(rej=True, out="empty-vocabulary")
+    amb = []
+    # radii are a function of the FIT corpus only: relative frequency among all raw tokens of the training documents
+    radii = R.radii_for(win, sorted(vocab), {t: counts[t] / len(toks) for t in vocab}, None, False, amb)
+    if amb:
+        return res(amb=True, out="radius-on-rounding-boundary")
 
     def ref(batch, vocab):
         out = {}
         for i, d in enumerate(batch):
             s = [t for t in d if t in vocab]
             for p, a in enumerate(s):
-                ctx = s[p + 1:p + 1 + radius]
+                ctx = s[p + 1:p + 1 + radii[a]]
                 for b, w in zip(ctx, R.kernel_weights(win, ctx, None, False)):
                     if w > 0:
                         out[(i, (a, b))] = out.get((i, (a, b)), 0.0) + w
         return out
-    vocab = set(toks)
     exp = ref(docs, vocab)
     v = []
     try:
-        est = V.SkipgramVectorizer(window_radius=radius, kernel_function=kernel)
+        est = V.SkipgramVectorizer(window_radius=radius, kernel_function=kernel, window_function=wfun, **kw)
         mat = est.fit_transform(docs)
     except Exception as e:
         if not exp:
@@ -214,6 +224,16 @@ def _skip_cases(tier):
             for d in itertools.product(docs, repeat=2):
                 for t in tests[: 2 if tier == "quick" else 4]:
                     yield {"docs": list(d), "radius": radius, "kernel": kernel, "test": t}
+    # frequency-dependent radii (window_function="variable") with and without a pruned vocabulary: the radii come from
+    # the training corpus; transform batches have a different token mix and tokens outside the kept vocabulary
+    docs4 = sigma("ab", 4) if tier == "quick" else sigma("abc", 4)
+    for radius in (2, 3, 5):
+        for kw in ({}, {"min_occurrences": 2}):
+            for d in itertools.product(docs4, repeat=2):
+                if len(d[0]) + len(d[1]) < 4:
+                    continue
+                for t in (["abab", "bbbz"], ["aab", "c", "ba"]):
+                    yield {"docs": list(d) + ["cab"], "radius": radius, "kernel": "flat", "test": t, "wfun": "variable", "kw": kw}
 
 
 # ------------------------------------------------------------------ edge lists
